@@ -402,10 +402,10 @@ def run(tier, replay=None):
             chk.violation("crash_%s_%s.json" % (hname, cid), {"kind": "crash / sanitizer report while compiling or scanning", "engine": "re", "harness": hname, "case": c,
                                                               "rc": rcx, "stderr": errx[-2500:], "meta": metas.get(cid, {})})
             found = True
-    model = []
+    mmap = {}
     if lres.get("driver_ok"):
-        model, _, _ = core.run_parallel([core.driver_path(), "re"], cases)
-    mmap = {l.split(" ", 1)[0]: l for l in model}
+        mmap, _ = rc.run_robust(core, [core.driver_path(), "re"], cases, chunk_timeout=300, single_timeout=30)
+    model = [mmap[c.split(" ", 1)[0]] for c in cases if c.split(" ", 1)[0] in mmap]
     kf = {f["id"]: f for f in core.known_findings("C02")}
     nviol = 0
     hist = {"chained": 0, "alt": 0, "with_matches": 0, "spec_offsets": 0, "reported": 0, "ast_tie_ok": 0, "cerr": 0, "pieces": {}, "fast": 0}
@@ -487,9 +487,9 @@ def run(tier, replay=None):
         if il.split()[1] != "CERR":
             chk.violation("malformed_%s.json" % cid, {"kind": "malformed hex string accepted", "engine": "re", "harness": "h_scan", "case": c, "implementation": il})
             found = True
-    fxres = check_fx(chk, b, cases, amap, lres, replay)
+    fxres = check_fx(chk, b, cases, amap, lres, replay, found)
     found = found or fxres.get("found", False)
-    wres, wfound = rc.check_wfx(core, chk, b, cases, lambda l, kind, err: False) if lres.get("driver_ok") else ({}, False)
+    wres, wfound = rc.check_wfx(core, chk, b, cases, lambda l, kind, err: False, found_so_far=found) if lres.get("driver_ok") else ({}, False)
     found = found or wfound
     chk.cov.update({
         "evaluations": len(cases) + len(mal), "distinct_nontrivial": len(distinct),
@@ -553,7 +553,7 @@ def classify_known(kf, meta, case, viol, d):
     return None
 
 
-def check_fx(chk, b, cases, amap, lres, replay):
+def check_fx(chk, b, cases, amap, lres, replay, found_so_far=False):
     """translation validation on the real bytecode: C VM (h_re fx=) vs Lean VM model (driver `revm`) on the same code"""
     import os
     if not os.path.exists(os.path.join(core.LEAN, "Driver", "Revm.lean")) or not lres.get("driver_ok"):
@@ -571,8 +571,8 @@ def check_fx(chk, b, cases, amap, lres, replay):
         buf = [x for x in c.split() if x.startswith("buf=")]
         if code and fx and strs and buf:
             lines.append((cid, "%s %s %s %s pairs=%s" % (cid, code[0], strs[0], buf[0], ",".join(p.split("|", 1)[0] for p in fx[0][3:].split(";")) if fx[0] != "fx=-" else "-"), fx[0]))
-    model, mrc, merr = core.run_parallel([core.driver_path(), "revm"], [l for _, l, _ in lines])
-    mm = {l.split(" ", 1)[0]: l for l in model}
+    mm, mcr = rc.run_robust(core, [core.driver_path(), "revm"], [l for _, l, _ in lines], chunk_timeout=300, single_timeout=20)
+    skipped = set(c.split(" ", 1)[0] for c, _, _ in mcr)          # the model ran out of time on these (fuel-bounded loops)
     bad = 0
     found = False
     def entries(tok):
@@ -590,6 +590,8 @@ def check_fx(chk, b, cases, amap, lres, replay):
         return out
 
     for cid, l, fx in lines:
+        if cid in skipped or cid not in mm:
+            continue
         A, M = entries(fx), entries(mm.get(cid) or "")
         diffs = []
         for k in set(A) | set(M):
@@ -603,7 +605,7 @@ def check_fx(chk, b, cases, amap, lres, replay):
             if bad < 5:
                 chk.violation("fx_%s.json" % cid, {"kind": "real bytecode: C VM result differs from the Lean VM model", "engine": "revm", "harness": "h_re", "case": l[:4000],
                                                   "implementation": ("%s %s" % (cid, fx))[:3000], "model": (mm.get(cid) or "")[:3000],
-                                                  "differences": [[list(k), a, m] for k, a, m in diffs[:6]]})
+                                                  "differences": [[list(k), a, m] for k, a, m in diffs[:6]]}, no_input=not found_so_far)
             bad += 1
             found = True
-    return {"found": found, "cov": {"cases_with_code": len(lines), "disagreements": bad}}
+    return {"found": found, "cov": {"cases_with_code": len(lines), "disagreements": bad, "model_timeouts": len(skipped)}}
